@@ -1,5 +1,5 @@
 """C01: a successful incremental build equals a clean build."""
-import enginecheck as ec
+import enginecheck as ec, histmodel
 from props import engcommon
 LEVEL = 'proof'; TRUSTED = engcommon.TRUSTED_ENGINE; ASSUMPTIONS = engcommon.ASSUMPTIONS_ENGINE
 def run(ctx):
@@ -8,3 +8,5 @@ def run(ctx):
         rnd = random.Random(ctx.seed + 77)
         return [ec.motif_deps_swap(rnd, 'C01_swap_%d' % i) for i in range(60)]
     engcommon.run_engine_property(ctx, 'C01', scan_accept=700, oracles=[('c01', None)], faults=0.3, extra_hists=extra, feat=dict(dyndep=0.25))
+    # the history-level model (coq/Engine/HistDefs.v, theorems of Properties_C01hist.v) run against the real engine
+    histmodel.hook(ctx, 'C01')
